@@ -47,6 +47,11 @@ HISTORY = {
     "C11-r3G10-2": "round 3. first run: missed by C11, C12 and C07; constants now come in narrow dtypes (int8..int32, uint8, float16/32) and the numeric division entries get float16/float32 dividends whose quotient is exact only in numpy's promoted dtype; patch rebased onto the repository fix of floor_divide's integer dtype",
     "C09-r3G6-1": "round 3. the agent's demo asserted its own worktree path; that line was removed here",
     "C11-r3G6-2": "round 3. the agent's demo asserted its own worktree path; that line was removed here",
+    "C02-r4H2-1": "round 4 (file group + a short list of candidate properties). first run: missed; argument shapes now include single values that carry axes ((1,), (1,1), (1,1,1)); the agent's demo asserted its own worktree path, that line was removed",
+    "C06-r4H2-2": "round 4. first run: missed by C06 and C12; C06 now differentiates int8 / int16 / uint8 polynomials whose coefficients sit at the limits of their type (exponent x coefficient must not wrap); demo path assertion removed",
+    "C08-r4H3-2": "round 4. first run: missed by C08 and C11; the operator table gained the form 'out': every function that accepts out= is called through both spellings with a fresh buffer (plain array for comparisons / constant operands, a polynomial otherwise), result and buffer compared. The unchanged library already disagrees for most of them (KF-C08-out-*), remainder is one of the consistent ones",
+    "C04-r4H4-1": "round 4. first run: missed by C04 and C01; operands now also store their names in a rotated / shuffled order (q1,q2,q0), in C04 and in C01's leaves",
+    "C12-r4H8-2": "round 4. first run: missed by C12 and C01; new cast-oracle entry power_exact: (c*q0)**1,2,3 with coefficients at the limits of every integer type (beyond 2**53 for 64 bit) and non-dyadic float16/32 values, compared exactly (integers as Python ints, no longer through complex128)",
     "C06-2": "first run: caught by C06, missed by C15; C15's derivative entry now differentiates with respect to several variables",
 }
 REJECTED = [
